@@ -7,6 +7,10 @@
 #endif
 
 #include <filesystem>
+#include <sys/syscall.h>
+#include <thread>
+#include <time.h>
+#include <unistd.h>
 
 using namespace e2e;
 
@@ -26,8 +30,38 @@ int main(int argc, char** argv)
   Rng r{mix(seed, std::hash<std::string>{}(family + mode))};
   uint64_t done = 0;
   bool ok = true;
+  // scenario watchdog (real monotonic clock, read with a raw system call: clock_gettime is interposed): a scenario
+  // normally takes milliseconds; one that has not finished after 300 s ends the process with exit status 124, which
+  // the driver treats exactly like its own per-job timeout (the job is re-run once, alone, before a hang is reported).
+  // It only makes a hang cost minutes instead of the driver's whole job budget.
+  static std::atomic<long> scen_started{0};
+  static std::atomic<uint64_t> scen_index{0};
+  auto real_mono_s = []
+  {
+    timespec ts{};
+    syscall(SYS_clock_gettime, CLOCK_MONOTONIC, &ts);
+    return static_cast<long>(ts.tv_sec);
+  };
+  scen_started.store(real_mono_s());
+  std::thread([real_mono_s, family, mode]
+              {
+                for (;;)
+                {
+                  timespec d{5, 0};
+                  nanosleep(&d, nullptr);
+                  if (real_mono_s() - scen_started.load() > 300)
+                  {
+                    emit(J{}.str("k", "hang").str("family", family).str("mode", mode).unum("scenario", scen_index.load()).unum("limit_s", 300).done());
+                    fflush(stdout);
+                    _exit(124);
+                  }
+                }
+              })
+    .detach();
   for (uint64_t i = 0; i < scenarios && ok; ++i)
   {
+    scen_index.store(i);
+    scen_started.store(real_mono_s());
     Rng sr{mix(r.next(), i)};
     if (family == "deliver") ok = g_mode_s ? deliver_S(sr, i) : deliver_F(sr, i);
     else if (family == "flush") ok = g_mode_s ? flush_S(sr, i) : flush_F(sr, i);
